@@ -145,8 +145,8 @@ func c18Self() string {
 
 // ---- child-process operations ---------------------------------------------------------------------
 
-// c18one <i>…: run exactly these calls, each as the FIRST library call of... no: the first index is
-// run cold; one process per index is what the parent does.  Prints "<i>\t<result>".
+// c18one <i>: run this call as the first library call of a new process (the parent starts one
+// process per index).  Prints "<i>\t<result>".
 func subC18One(args []string) {
 	calls := pool.Build()
 	w := bufio.NewWriter(os.Stdout)
@@ -510,12 +510,23 @@ func (c *Ctx) c18FreshProcesses(calls []pool.Call, base []string) {
 			}
 		}()
 	}
+	// quick: every Deterministic call and a seed-rotated third of the others; thorough: all
+	chosen := func(i int) bool {
+		return c.Thorough() || calls[i].Kind == "det" || (uint64(i)+c.Seed)%3 == 0
+	}
+	nrun := 0
 	for i := range calls {
-		jobs <- i
+		if chosen(i) {
+			jobs <- i
+			nrun++
+		}
 	}
 	close(jobs)
 	wg.Wait()
 	for i, cl := range calls {
+		if !chosen(i) {
+			continue
+		}
 		c.Case("fresh-process|"+cl.Name, true)
 		if fresh[i] != strings.ReplaceAll(base[i], "\n", "\\n") {
 			kind := "process-dependence"
@@ -529,7 +540,7 @@ func (c *Ctx) c18FreshProcesses(calls []pool.Call, base []string) {
 			c.Violate(kind, cl.Name, nil, map[string]any{"alone_in_fresh_process": trunc(fresh[i], 1500), "in_harness_process_after_earlier_calls": trunc(base[i], 1500), "calls_before_it_in_harness": len(hist)})
 		}
 	}
-	c.HitN("fresh-process-runs", int64(len(calls)))
+	c.HitN("fresh-process-runs", int64(nrun))
 }
 
 // c18Reset: script i on a coder, Reset, script j  ==  script j on a new coder.
